@@ -1078,11 +1078,15 @@ class Task:
                     if e is None:
                         outs += self.exec_block(node.body, s2)
             self.dry_local_sorts = {}
+            self.dry_none_widen = {}
             for o in outs:
                 for name in assigned:
                     v = o.st.locals.get(name)
                     if isinstance(v, V) and name not in st.locals:
                         self.dry_local_sorts.setdefault(name, v.sort)
+                    # a local that is None before the loop and receives a value of another sort inside it (x = None; for ...: x = obj)
+                    if isinstance(v, V) and v.sort != NONE and isinstance(st.locals.get(name), V) and st.locals[name].sort == NONE:
+                        self.dry_none_widen.setdefault(name, v.sort)
             return set(self.collecting)
         finally:
             if outer_collecting is not None:
@@ -1103,6 +1107,10 @@ class Task:
         for name in assigned:
             if name in ls:
                 st.locals[name] = parse_sort(ls[name]).fresh(f"loop.{name}")
+            elif name in st.locals and isinstance(st.locals[name], V) and st.locals[name].sort == NONE and name in getattr(self, "dry_none_widen", {}):
+                ws = self.dry_none_widen[name]       # None before the loop, a value inside it: afterwards it is either (nullable object / Optional value)
+                ws = ws if isinstance(ws, (RefSort, OptSort)) else OptSort(ws)
+                st.locals[name] = ws.fresh(f"loop.{name}")
             elif name in st.locals and isinstance(st.locals[name], V):
                 st.locals[name] = st.locals[name].sort.fresh(f"loop.{name}")
         for a, base in sorted(attrs, key=str):
@@ -1697,6 +1705,13 @@ class Task:
                 continue
             if _is_pure(node.body) and _is_pure(node.orelse):
                 for s3, (a, b), e3 in self.ev_many([node.body, node.orelse], s2):
+                    if e3 is None and not (isinstance(a, V) and isinstance(b, V)):
+                        # python-level alternatives (bound methods, classes ...): one path per alternative
+                        if self.feasible(s3, c):
+                            t = s3.fork(); t.assume(c); res.append((t, a, None))
+                        if self.feasible(s3, z3.Not(c)):
+                            f_ = s3.fork(); f_.assume(z3.Not(c)); res.append((f_, b, None))
+                        continue
                     res.append((s3, v_ite(c, a, b) if e3 is None else None, e3))
             else:
                 if self.feasible(s2, c):
